@@ -9,6 +9,18 @@ COMMON_NOTE = ("Trusted base: rustc/cargo 1.80.1, serde/serde_json, syn, python 
                "see DESIGN.md section 4 'Outside' for what the bound leaves open.")
 
 CHECKS = {
+ "C02": dict(
+  text="Bounded exhaustive enumeration of faithful-fragment schemas (leaf menu x composite menu x context menu: depth-2, depth-3 and pair products) each converted by the real typify-impl, compiled by rustc and run on every element of its compositional instance universe (every member subset, boundary lengths in 1/2/4-byte scalars, every other JSON type, cross-branch mixtures); every instance the independent Draft-7 oracle calls valid must deserialize.",
+  design="DESIGN.md 4/C02", technique="bounded exhaustive enumeration of schemas x instance universes, executed on compiled generated code, judged by an independent JSON Schema validator",
+  note="Instances outside the universe and schemas deeper than depth 3 are not covered. Cases typify rejects or that do not compile are counted and left to C01. " + COMMON_NOTE),
+ "C03": dict(
+  text="Same enumerated space and pipeline run as C02; every oracle-valid instance containing only declared members is deserialized, serialized and round-tripped again on the compiled type; the result must be oracle-valid, contain the instance's data (prune containment), add only default-valued members and be a fixed point.",
+  design="DESIGN.md 4/C03", technique="bounded exhaustive enumeration of schemas x valid instances, round trip executed on compiled generated code, reference containment oracle",
+  note="As C02. Intrinsic defaults are null, [], {}, false, 0, \"\". " + COMMON_NOTE),
+ "C05": dict(
+  text="Bounded exhaustive enumeration of schemas built only from enforced constructs x contexts; the instance universe contains every single-constraint mutant of every valid instance; every oracle-invalid element must be rejected by the compiled type, FromStr/TryFrom must agree with Deserialize on every probe string, and a syn scan must find no public field or From<inner> on constrained newtypes.",
+  design="DESIGN.md 4/C05", technique="bounded exhaustive mutant enumeration executed on compiled generated code + structural scan of the emitted items",
+  note="Alphabet rules (DESIGN 11): never null at an Option position, never an array for an object, never omission of a required nullable member. " + COMMON_NOTE),
  "C10": dict(
   text="Bounded exhaustive enumeration of integer schemas over the boundary lattice (every integer type's MIN/MAX, each +-1, small and large values) x 12 formats x <=2 of the 4 bound keywords x multipleOf, plus default and string/float format tables; every schema is converted by the real typify-impl and the chosen builtin (read through the public Type API) is compared, by exact integer arithmetic, against every lattice probe the schema admits.",
   design="DESIGN.md 4/C10", technique="bounded exhaustive input enumeration on the implementation + exact-arithmetic reference oracle",
